@@ -45,30 +45,48 @@ Proof.
     rewrite (in_space_length (map snd hps) cfg I). apply map_length.
 Qed.
 
-Lemma ask_paths_original_space : forall (R lg : Q -> Q) (pw : Q -> Q -> Q) sp n_initial dummy user design evs,
+Lemma ask_paths_original_space : forall (R lg : Q -> Q) (pw : Q -> Q -> Q) sp actf v n_initial dummy user design evs,
+  v <> Pinned ->
   wf_space sp = true -> Forall (fun r => in_space sp r = true) user -> Forall (ev_ok sp) evs ->
-  let pts := asked R lg pw Fixed sp (init_state R lg pw sp n_initial dummy user design) evs in
+  let pts := asked R lg pw v sp actf (init_state R lg pw sp n_initial dummy user design) evs in
   Forall (fun r => in_space sp r = true) pts /\ Forall (fun r => check_x sp r = TOk) pts.
 Proof.
-  intros R lg pw sp n_initial dummy user design evs W U H. cbv zeta. split.
-  - exact (asked_members R lg pw sp W evs _ (init_state_inv R lg pw sp W n_initial dummy user design U) H).
-  - exact (asked_accepted R lg pw sp W evs _ (init_state_inv R lg pw sp W n_initial dummy user design U) H).
+  intros R lg pw sp actf v n_initial dummy user design evs NP W U H. cbv zeta. split.
+  - exact (asked_members R lg pw sp actf W v NP evs _ (init_state_inv R lg pw sp W n_initial dummy user design U) H).
+  - exact (asked_accepted R lg pw sp actf W v evs _ NP (init_state_inv R lg pw sp W n_initial dummy user design U) H).
+Qed.
+
+Lemma ask_paths_canonical : forall (R lg : Q -> Q) (pw : Q -> Q -> Q) sp actf n_initial dummy user evs,
+  (forall x, actf (deactivate sp actf x) = actf x) ->
+  Forall (canonical sp actf) user -> Forall (ev_canon sp actf) evs ->
+  Forall (canonical sp actf) (asked R lg pw Fixed sp actf (init_state R lg pw sp n_initial dummy user []) evs).
+Proof.
+  intros R lg pw sp actf n_initial dummy user evs ST U H.
+  exact (asked_canonical R lg pw sp actf ST evs _ (init_state_invc R lg pw sp actf n_initial dummy user U) H).
 Qed.
 
 Lemma topk_refuted :
-  exists R lg pw sp st evs,
+  exists R lg pw sp actf st evs,
     wf_space sp = true /\ Inv R lg sp st /\ Forall (ev_ok sp) evs /\
-    List.length (asked R lg pw Pinned sp st evs) = 2%nat /\
-    Forall (fun r => in_space sp r = false /\ check_x sp r = TErrBounds) (asked R lg pw Pinned sp st evs) /\
-    Forall (fun r => in_space sp r = true) (asked R lg pw Fixed sp st evs).
-Proof. exists Rid, lg0, pw0, wit_sp, wit_st, wit_evs. exact topk_pinned_refuted. Qed.
+    List.length (asked R lg pw Pinned sp actf st evs) = 2%nat /\
+    Forall (fun r => in_space sp r = false /\ check_x sp r = TErrBounds) (asked R lg pw Pinned sp actf st evs) /\
+    Forall (fun r => in_space sp r = true) (asked R lg pw Fixed sp actf st evs).
+Proof. exists Rid, lg0, pw0, wit_sp, act_all, wit_st, wit_evs. exact topk_pinned_refuted. Qed.
 
-Lemma post_state : forall R lg pw v sp st,
-  (forall n s orc, ask_post st n s = obs_of (snd (ask_points R lg pw v sp st n s orc))) /\
-  (forall k fit cands z act, tell_post st k fit = obs_of (tell_state R lg pw sp st k fit cands z act)).
+Lemma oneshot_noncanonical_refuted :
+  exists R lg pw sp actf st evs user,
+    wf_space sp = true /\ Forall (ev_ok sp) evs /\ (forall x, actf (deactivate sp actf x) = actf x) /\
+    Forall (canonical sp actf) user /\
+    Forall (fun r => in_space sp r = true) (asked R lg pw Decoded sp actf st evs) /\
+    Exists (fun r => deactivate sp actf r <> r) (asked R lg pw Decoded sp actf st evs) /\
+    Forall (canonical sp actf) (asked R lg pw Fixed sp actf st evs).
+Proof. exists R_up53, lg0, pw0, drift_sp, drift_act, drift_st, drift_evs, [[1; 2 # 1000]]. exact oneshot_decoded_refuted. Qed.
+
+Lemma post_state : forall R lg pw v sp actf st,
+  (forall n s orc, ask_post st n s = obs_of (snd (ask_points R lg pw v sp actf st n s orc))) /\
+  (forall k fit cands z, tell_post st k fit = obs_of (tell_state R lg pw sp actf st k fit cands z)).
 Proof.
-  intros R lg pw v sp st. split.
-  - intros n s orc. exact (ask_post_spec R lg pw v sp st n s orc).
-  - intros k fit cands z act. exact (tell_post_spec R lg pw sp st k fit cands z act).
+  intros R lg pw v sp actf st. split.
+  - intros n s orc. exact (ask_post_spec R lg pw v sp actf st n s orc).
+  - intros k fit cands z. exact (tell_post_spec R lg pw sp actf st k fit cands z).
 Qed.
-
